@@ -179,7 +179,14 @@ func c19Apply(b bufAPI, capFn func() int, o c19Op) (res string, caps []int) {
 		if after := capFn(); after != before && o.name != "readfrom" {
 			caps = append(caps, after)
 		}
-		res += fmt.Sprintf(" ; len=%d s=%s", b.Len(), hxs(b.String()))
+		res += func() (st string) {
+			defer func() {
+				if rec := recover(); rec != nil {
+					st = " ; state-unreadable: " + fmt.Sprint(rec)
+				}
+			}()
+			return fmt.Sprintf(" ; len=%d s=%s", b.Len(), hxs(b.String()))
+		}()
 	}()
 	switch o.name {
 	case "write":
@@ -298,8 +305,59 @@ func runC19(r *run) {
 			nOps = 1 + g.intn(12)
 		}
 		var history []string
+		// short scripts that random choice seldom produces: a read that can be undone, followed by a Grow that fits /
+		// slides / reallocates, followed by the Unread; contents cut in the middle of a multi-byte rune (with the rest
+		// of the rune still behind the end of the contents), then ReadRune
+		var queued []func() c19Op
 		for k := 0; k < nOps; k++ {
+			if len(queued) == 0 && g.chance(1, 14) {
+				mb := []byte("a\xc3\xa9\xe2\x82\xac\xf0\x9f\x98\x80z\xf0\x9f\x98\x80")
+				switch g.intn(4) {
+				case 0:
+					unread := []string{"unreadrune", "unreadbyte"}[g.intn(2)]
+					queued = []func() c19Op{
+						func() c19Op { return c19Op{name: "write", bs: mb} },
+						func() c19Op { return c19Op{name: "readrune"} },
+						func() c19Op {
+							return c19Op{name: "grow", n: []int{1, pc.VerifCap() + 1000, pc.VerifCap() / 3, 70000}[g.intn(4)]}
+						},
+						func() c19Op { return c19Op{name: unread} },
+						func() c19Op { return c19Op{name: "string"} },
+					}
+				case 1:
+					queued = []func() c19Op{
+						func() c19Op { return c19Op{name: "write", bs: mb} },
+						func() c19Op { return c19Op{name: "truncate", n: pc.Len() - 1 - g.intn(3)} },
+						func() c19Op { return c19Op{name: "next", n: pc.Len() - 1 - g.intn(3)} },
+						func() c19Op { return c19Op{name: "readrune"} },
+						func() c19Op { return c19Op{name: "readrune"} },
+						func() c19Op { return c19Op{name: "len"} },
+					}
+				case 2:
+					queued = []func() c19Op{
+						func() c19Op { return c19Op{name: "write", bs: mb} },
+						func() c19Op { return c19Op{name: "reset"} },
+						func() c19Op { return c19Op{name: "write", bs: mb[:1+g.intn(len(mb)-1)]} },
+						func() c19Op { return c19Op{name: "next", n: pc.Len() - 1 - g.intn(3)} },
+						func() c19Op { return c19Op{name: "readrune"} },
+						func() c19Op { return c19Op{name: "string"} },
+					}
+				default:
+					queued = []func() c19Op{
+						func() c19Op { return c19Op{name: "write", bs: mb} },
+						func() c19Op { return c19Op{name: "read", n: pc.Len()} },
+						func() c19Op { return c19Op{name: "grow", n: []int{1, 8, pc.VerifCap() + 1}[g.intn(3)]} },
+						func() c19Op { return c19Op{name: []string{"unreadbyte", "unreadrune"}[g.intn(2)]} },
+						func() c19Op { return c19Op{name: "write", bs: []byte("xyz")} },
+						func() c19Op { return c19Op{name: "string"} },
+					}
+				}
+			}
 			o := c19Op{name: names[g.intn(len(names))]}
+			scripted := false
+			if len(queued) > 0 {
+				o, queued, scripted = queued[0](), queued[1:], true
+			}
 			room := pc.VerifCap() - len(pInit) // rough; only used to bias sizes
 			_ = room
 			size := func() int {
@@ -321,7 +379,7 @@ func runC19(r *run) {
 				}
 				return g.intn(40)
 			}
-			switch o.name {
+			switch map[bool]string{true: "scripted", false: o.name}[scripted] {
 			case "write", "writestring":
 				o.bs = randBytes(size())
 			case "writebyte":
